@@ -52,7 +52,19 @@ func (vc *FnVC) generate() {
 		vc.params[p.Name()] = vc.vals[p]
 		vc.emit(vc.typeInv(st, name, p.Type()))
 	}
-	for _, fv := range fn.FreeVars {
+	for i, fv := range fn.FreeVars {
+		if immutableCapture(fn, i) {
+			// the captured variable is never reassigned: a constant of the closure
+			et := fv.Type().Underlying().(*types.Pointer).Elem()
+			cname := vc.enc.declConst("cap$"+sanitize(fv.Name()), vc.enc.sortOf(et))
+			ctv := TV{S: cname, Sort: vc.enc.sortOf(et), Ty: et}
+			vc.constCapture[fv] = ctv
+			vc.params[fv.Name()] = Val{k: vTerm, tv: ctv}
+			vc.emit(vc.typeInv(st, cname, et))
+			pname := vc.enc.declConst("fv$"+sanitize(fv.Name()), sInt)
+			vc.vals[fv] = Val{k: vTerm, tv: TV{S: pname, Sort: sInt, Ty: fv.Type()}}
+			continue
+		}
 		name := vc.enc.declConst("fv$"+sanitize(fv.Name()), vc.enc.sortOf(fv.Type()))
 		tv := TV{S: name, Sort: vc.enc.sortOf(fv.Type()), Ty: fv.Type()}
 		vc.vals[fv] = Val{k: vTerm, tv: tv}
@@ -187,10 +199,20 @@ func (vc *FnVC) mergeStates(b *ssa.BasicBlock, es []edge) *State {
 			sameEpoch = false
 		}
 	}
-	st := &State{epoch: first.epoch, comp: map[string]string{}}
+	st := &State{epoch: first.epoch, gepoch: first.gepoch, comp: map[string]string{}}
+	for _, e := range es[1:] {
+		if vc.out[e.from].gepoch != first.gepoch {
+			sameEpoch = false
+		}
+	}
 	if !sameEpoch {
 		vc.epochCtr++
 		st.epoch = vc.epochCtr
+		st.gepoch = vc.epochCtr
+		// keep what is known about every component seen so far
+		for _, e := range es {
+			vc.materialize(vc.out[e.from])
+		}
 	}
 	keys := map[string]bool{}
 	for _, e := range es {
@@ -597,4 +619,14 @@ func (vc *FnVC) describe() string {
 		sb.WriteByte('\n')
 	}
 	return sb.String()
+}
+
+// materialize makes the implicit (never written since the last havoc) components of a state
+// explicit, so that a merge with a state of a different epoch keeps them.
+func (vc *FnVC) materialize(st *State) {
+	for _, c := range sortedKeys(vc.compSort) {
+		if _, ok := st.comp[c]; !ok {
+			st.comp[c] = vc.compInit(st, c)
+		}
+	}
 }
